@@ -105,10 +105,12 @@ def run(tier, seed):
                             "analyser": {k: r.get(k) for k in ("status", "what", "line", "col")}}, "case%d" % len(seen))
     fam = collections.Counter(c["id"].split(":")[0] for c in cases)
     sample = next(c for c in cases if c["id"].startswith("pos:fld_ob_priv:"))
-    cov = {"evaluations": len(cases), "states": states, "traces_replayed_into_impl": len(cases) - verdicts["unspec"],
+    compared_sources = {jobs[i]["src"] for i, c in enumerate(cases) if oracle[c["id"]]["v"] != "unspec"}
+    cov = {"evaluations": len(cases), "distinct_nontrivial": len(compared_sources), "states": states, "traces_replayed_into_impl": len(cases) - verdicts["unspec"],
            "verdicts": dict(verdicts), "rejecting_cases_per_rule": dict(rules), "families": dict(fam), "disagreements": len(bad),
            "samples": [{"case": sample["id"], "specification": oracle[sample["id"]], "program_tail": bsyntax.render(sample["prog"])[-600:]}],
-           "rule": "BlochStatic.tla (a checker for the documented hard rules over the shared JSON syntax) decides every case; the real analyser must "
+           "rule": "non-trivial = the specification gives a definite verdict (accept or reject, not unspec); distinct = distinct program text. "
+                   "BlochStatic.tla (a checker for the documented hard rules over the shared JSON syntax) decides every case; the real analyser must "
                    "agree (Semantic error <=> reject). Families: pos = ~140 offending/innocent expressions (member access by 8 receiver routes x "
                    "visibility, bare names and calls, static access, super calls, void calls, null, new of static/abstract/private-ctor classes, "
                    "this/super in static code, writes and ++ on final locals/fields/static finals, undeclared names) x ~25 expression positions "
